@@ -14,6 +14,7 @@ def register4(E):
 
     def vec_of(x):
         v = deref(x)
+        while isinstance(v, Agg) and len(v.f) == 1 and v.ty not in ('arr', 'tup'): v = deref(v.f[0])
         if not isinstance(v, Vec): raise EngineError(f'not a Vec: {v!r}')
         return v
     def truth(e, c): return e.branch(c)
@@ -346,6 +347,93 @@ def register4(E):
         for i in idx:
             if truth(e, e.closure_call(a[1], [xs[i]])): return SOME(i)
         return NONE()
+    # ---------------------------------------------------------------- u8 / char classification (symbolic aware)
+    def in_set(b, ranges):
+        if isinstance(b, int): return any(lo <= b <= hi for lo, hi in ranges)
+        return z3.Or(*[(b == lo) if lo == hi else z3.And(z3.UGE(b, lo), z3.ULE(b, hi)) for lo, hi in ranges])
+    U8CLASS = {'is_ascii_whitespace': [(9, 10), (12, 13), (32, 32)], 'is_ascii_digit': [(48, 57)], 'is_ascii_alphabetic': [(65, 90), (97, 122)],
+               'is_ascii_alphanumeric': [(48, 57), (65, 90), (97, 122)], 'is_ascii_uppercase': [(65, 90)], 'is_ascii_lowercase': [(97, 122)],
+               'is_ascii_hexdigit': [(48, 57), (65, 70), (97, 102)], 'is_ascii_punctuation': [(33, 47), (58, 64), (91, 96), (123, 126)],
+               'is_ascii_graphic': [(33, 126)], 'is_ascii_control': [(0, 31), (127, 127)], 'is_ascii': [(0, 127)]}
+    @R(r'^core::num::<impl u8>::(is_ascii\w*)$|^core::char::methods::<impl char>::(is_ascii\w*)$')
+    def _(e, c, a):
+        name = c.rsplit('::', 1)[1]; b = deref(a[0])
+        if name not in U8CLASS: raise EngineError('u8 class ' + name)
+        return in_set(b, U8CLASS[name])
+    @R(r'^core::num::<impl (usize|u8|u16|u32|u64)>::saturating_add$')
+    def _(e, c, a):
+        x, y = a; bits = {'usize': 64, 'u8': 8, 'u16': 16, 'u32': 32, 'u64': 64}[re.search(r'impl (\w+)>', c).group(1)]
+        if isinstance(x, int) and isinstance(y, int): return min(x + y, (1 << bits) - 1)
+        X = x if z3.is_bv(x) else z3.BitVecVal(x, bits); Y = y if z3.is_bv(y) else z3.BitVecVal(y, bits)
+        return z3.If(z3.BVAddNoOverflow(X, Y, False), X + Y, z3.BitVecVal((1 << bits) - 1, bits))
+    @R(r'Option::<.*>::filter::<')
+    def _(e, c, a):
+        if a[0].v == 'None': return a[0]
+        return a[0] if truth(e, e.closure_call(a[1], [Ref(a[0].f, 0)])) else NONE()
+    @R(r'Option::<(usize|u8|u32|u64|i32|i64)>::unwrap_or_default$')
+    def _(e, c, a): return a[0].f[0] if a[0].v == 'Some' else 0
+    @R(r'Option::<.*>::(is_none_or|is_some_and)::<')
+    def _(e, c, a):
+        if a[0].v == 'None': return 'is_none_or' in c
+        return e.closure_call(a[1], [a[0].f[0]])
+    @R(r'Option::<.*>::(map_or|map_or_else)::<')
+    def _(e, c, a):
+        if a[0].v == 'Some': return e.closure_call(a[2], [a[0].f[0]])
+        return a[1] if '::map_or::' in c else e.closure_call(a[1], [])
+    @R(r'Option::<.*>::ok_or_else::<')
+    def _(e, c, a): return OK(a[0].f[0]) if a[0].v == 'Some' else ERR(e.closure_call(a[1], []))
+    @R(r'Option::<.*>::(as_mut|as_deref)$')
+    def _(e, c, a):
+        o = deref(a[0]); return SOME(Ref(o.f, 0)) if o.v == 'Some' else NONE()
+    @R(r'Result::<.*>::(map_err|map|and_then|ok|is_ok|is_err|unwrap_or)(::<.*)?$')
+    def _(e, c, a):
+        op = re.search(r'>::(\w+)(::<.*)?$', c).group(1); r = a[0]
+        if op == 'map_err': return r if r.v == 'Ok' else ERR(e.closure_call(a[1], [r.f[0]]))
+        if op == 'map': return OK(e.closure_call(a[1], [r.f[0]])) if r.v == 'Ok' else r
+        if op == 'and_then': return e.closure_call(a[1], [r.f[0]]) if r.v == 'Ok' else r
+        if op == 'ok': return SOME(r.f[0]) if r.v == 'Ok' else NONE()
+        if op == 'is_ok': return deref(r).v == 'Ok'
+        if op == 'is_err': return deref(r).v == 'Err'
+        return r.f[0] if r.v == 'Ok' else a[1]
+    # ---- bstr
+    @R(r'as ByteSlice>::find_byte$')
+    def _(e, c, a):
+        l, lo, hi = bl(a[0])
+        for i in range(lo, hi):
+            if truth(e, l[i] == a[1]): return SOME(i - lo)
+        return NONE()
+    @R(r'as ByteSlice>::(last_byte)$')
+    def _(e, c, a):
+        l, lo, hi = bl(a[0]); return SOME(l[hi - 1]) if hi > lo else NONE()
+    @R(r'as ByteVec>::push_str::<|as ByteVec>::push_byte$|as ByteVec>::push_char$')
+    def _(e, c, a):
+        v = vec_of(a[0])
+        if 'push_str' in c: s_ = bl(a[1]); v.l.extend(s_[0][s_[1]:s_[2]])
+        else: v.l.append(a[1])
+        return UNIT
+    @R(r'as Itertools>::all_equal_value$')
+    def _(e, c, a):
+        xs = drain(it_of(a[0]))
+        if not xs: return ERR(NONE())
+        for x in xs[1:]:
+            if not truth(e, eq_val(xs[0], x)): return ERR(SOME(Agg([xs[0], x], 'tup')))
+        return OK(xs[0])
+    @R(VEC + r'pop_if::<')
+    def _(e, c, a):
+        v = vec_of(a[0])
+        if not v.l: return NONE()
+        if truth(e, e.closure_call(a[1], [Ref(v.l, len(v.l) - 1)])): return SOME(v.l.pop())
+        return NONE()
+    # ---- io::Write on Vec<u8> (in-memory output)
+    @R(r' as (std::io::)?Write>::write_all$')
+    def _(e, c, a):
+        v = vec_of(a[0]); s_ = bl(a[1]); v.l.extend(s_[0][s_[1]:s_[2]]); return OK(UNIT)
+    @R(r' as (std::io::)?Write>::write_fmt$|^std::io::Write::write_fmt$')
+    def _(e, c, a):
+        v = vec_of(a[0]); v.l.extend(E.format_args(a[1])); return OK(UNIT)
+    @R(r'^(std::mem|core::mem)::swap::<')
+    def _(e, c, a):
+        x, y = a[0].get(), a[1].get(); a[0].set(y); a[1].set(x); return UNIT
     @R(r'^(std|core)::slice::from_ref::<')
     def _(e, c, a):
         r = a[0]
